@@ -7,10 +7,17 @@ cd /verif
 wt=/tmp/vf_seeded_wt_$$
 git -C /repo worktree add -q --detach $wt HEAD || exit 2
 miss=0
+clean_ok=""
 for d in seeded/${1:-*}/; do
   name=$(basename $d); id=${name%%-*}
   if grep -q '"status": "neutralised' $d/meta.json 2>/dev/null; then echo "$name SKIPPED (neutralised by a later repair, see meta.json)"; continue; fi
   git -C $wt checkout -q -- . 
+  # a seeded change only counts as caught if the same check is silent on the unpatched tree (checked once per property)
+  if ! echo " $clean_ok " | grep -q " $id "; then
+    VF_REPO=$wt VF_NO_EVIDENCE=1 ./check $id --tier ${TIER:-quick} >/dev/null 2>&1
+    if [ $? -ne 0 ]; then echo "$id BASELINE-NOT-CLEAN: the check does not hold on the unpatched tree; results for its seeds mean nothing"; miss=$((miss+1)); fi
+    clean_ok="$clean_ok $id"
+  fi
   if ! git -C $wt apply /verif/$d/patch.diff 2>/dev/null; then echo "$name PATCH-DOES-NOT-APPLY"; miss=$((miss+1)); continue; fi
   o=$(VF_REPO=$wt VF_NO_EVIDENCE=1 ./check $id --tier ${TIER:-quick} 2>/dev/null); rc=$?
   if [ $rc -eq 1 ]; then echo "$name CAUGHT by $id: $(echo "$o" | grep -a -m1 'witness: mech' | sed 's/.*mech=\([^ ]*\).*/\1/')"
